@@ -157,6 +157,10 @@ def render_v1(case, d, cols, outname):
     if case["reference"]:
         c["time_control"]["reference_time"] = world.iso(S0 - 86400)
     c["files"] = dict(particle_release_file=str(d / "r.rls"), output_file=str(d / outname))
+    if case["dt"] == "list":  # old-style lines left in the `files` section while `gridforce` names the files that count
+        c["files"]["input_file"] = str(d / "decoy_0.nc")
+        if case["grid"].startswith("explicit"):
+            c["files"]["gridfile"] = str(d / "decoy_0.nc")
     # the ROMS module under its version-1 name (as in examples/line/ladim1.yaml) in one half of the lattice
     v1mod = "ladim1.gridforce.ROMS" if case["advection"] == "RK4" else "ladim.ROMS"
     c["gridforce"] = dict(module=plugin_path(d) if case["grid"] == "explicit-plugin-nomodule" else v1mod, input_file=forcing_name(case, d))
@@ -167,6 +171,10 @@ def render_v1(case, d, cols, outname):
     pr = dict(variables=cols)
     if case["release"] == "continuous":
         pr.update(release_type="continuous", release_frequency=[20, "m"])
+    elif case["ibmvar"]:
+        pr.update(release_type="discrete", release_frequency=[20, "m"])  # left over from an earlier set-up: a discrete release ignores it
+    elif case["column"] == "int":
+        pr.update(release_frequency=[20, "m"])  # no release_type at all: discrete
     pvars = []
     if case["column"] == "int":
         pr["farmid"] = "int"
@@ -289,6 +297,18 @@ def run_case(case):
         (d / "decoy.toml").write_text(to_toml(dconf))
         _configure(str(d / "decoy.yaml"))
         _configure(str(d / "decoy.toml"))
+        if case["grid"] == "omitted-wildcard":
+            # the very pattern of the real run, configured while the file that sorts first is still missing
+            hidden = d / "f_000.nc.hidden"
+            (d / "f_000.nc").rename(hidden)
+            try:
+                dconf["forcing"]["filename"] = str(d / "f_*.nc")
+                (d / "decoy2.yaml").write_text(yaml.safe_dump(dconf, sort_keys=False))
+                (d / "decoy2.toml").write_text(to_toml(dconf))
+                _configure(str(d / "decoy2.yaml"))
+                _configure(str(d / "decoy2.toml"))
+            finally:
+                hidden.rename(d / "f_000.nc")
     except BaseException as e:
         bad("crash:decoy", f"configure() of a plain valid v2 file failed: {e!r}")
     results, configs = {}, {}
